@@ -325,3 +325,8 @@ mod tests {
         assert_eq!(ut.get_live_list(), kept);
     }
 }
+
+#[cfg(kani)]
+mod verif {
+    include!(concat!(env!("PROFIRUST_VERIF_HARNESS"), "/fdl_live_list.rs"));
+}
